@@ -4,7 +4,7 @@ pub uninterp spec fn reg_op(s: Seq<char>) -> bool;
 pub uninterp spec fn reg_postfix(s: Seq<char>) -> bool;
 pub uninterp spec fn reg_prefix(s: Seq<char>) -> bool;
 pub uninterp spec fn reg_infix(s: Seq<char>) -> bool;
-#[verifier::external_body] pub fn is_op(op: &str) -> (r: bool) ensures r == reg_op(op@) { unimplemented!() }
+#[verifier::external_body] pub fn is_op(op: &str) -> (r: bool) ensures r == reg_op(op@), r == super::reg_opb(op.spec_bytes()) { unimplemented!() }   // the answer depends on the text only, hence on its bytes
 #[verifier::external_body] pub fn is_postfix_op(op: &str) -> (r: bool) ensures r == reg_postfix(op@) { unimplemented!() }
 #[verifier::external_body] pub fn is_prefix_op(op: &str) -> (r: bool) ensures r == reg_prefix(op@) { unimplemented!() }
 #[verifier::external_body] pub fn is_infix_op(op: &str) -> (r: bool) ensures r == reg_infix(op@) { unimplemented!() }
